@@ -55,6 +55,8 @@ func NewExprSpace(maxE, maxF int) *ExprSpace {
 		for _, q := range quals[:3] {
 			s.menuF = append(s.menuF, Alt{Terms: pl(f, tk(op), f), Prec: q.p, Assoc: q.a})
 			s.menuF = append(s.menuF, Alt{Terms: pl(e, tk(op), tk(2)), Prec: q.p, Assoc: q.a})
+			// same right-hand side as e's binary alternative: three actions in one cell
+			s.menuF = append(s.menuF, Alt{Terms: pl(e, tk(op), e), Prec: q.p, Assoc: q.a})
 		}
 	}
 	s.menuF = append(s.menuF, Alt{Terms: pl(tk(2))}, Alt{Terms: pl(e)})
